@@ -234,6 +234,26 @@ def _representations(which):
         if "split_by_flag" in which:
             bases["split_by_flag"] = run("flagged", ["flagged.bam"], "chr9.4M.gtf.gz", ["--complete_genedb"])
             variants["split_by_flag"] = run("byflag", ["flag_clear.bam", "flag_set.bam"], "chr9.4M.gtf.gz", ["--complete_genedb"])
+        if "replaced_gz" in which:
+            # history in one output folder: a run with an annotation file, the file replaced by another release under the same name,
+            # a second run into the same folder - it must equal a fresh run with the new release
+            lines = open(os.path.join(d, "plain.gtf")).read().splitlines(True)
+            genes = sorted(set(l.split('gene_id "')[1].split('"')[0] for l in lines if 'gene_id "' in l))
+            dropped = set(genes[::3])
+            reduced = [l for l in lines if l.startswith("#") or l.split('gene_id "')[1].split('"')[0] not in dropped]
+            os.makedirs(os.path.join(d, "ann"), exist_ok=True)
+            shutil.copy(os.path.join(d, "chr9.4M.gtf.gz"), os.path.join(d, "ann", "annot.gtf.gz"))
+            first = run("hist", ["chr9.4M.ont.sim.polya.bam"], "ann/annot.gtf.gz", ["--complete_genedb"])
+            for path in (os.path.join(d, "ann", "annot.gtf.gz"), os.path.join(d, "release2.gtf.gz")):
+                with gzip.open(path, "wt") as fo:
+                    fo.writelines(reduced)
+            st = os.stat(os.path.join(d, "ann", "annot.gtf.gz"))
+            os.utime(os.path.join(d, "ann", "annot.gtf.gz"), (st.st_atime + 100, st.st_mtime + 100))
+            if first is not None:
+                bases["replaced_gz"] = run("fresh2", ["chr9.4M.ont.sim.polya.bam"], "release2.gtf.gz", ["--complete_genedb"])
+                variants["replaced_gz"] = run("hist", ["chr9.4M.ont.sim.polya.bam"], "ann/annot.gtf.gz", ["--complete_genedb", "--force"])
+                if bases["replaced_gz"] is not None and bases["replaced_gz"] == first:
+                    problems.append("replaced_gz: dropping a third of the genes changed nothing (test input without effect)")
         if "plain_gtf" in which:
             variants["plain_gtf"] = run("plain", ["chr9.4M.ont.sim.polya.bam"], "plain.gtf", ["--complete_genedb"])
         if "inferred" in which:
@@ -271,13 +291,13 @@ def replay_repr(d):
 
 
 @bounded("C12.representations", ["C12"], note="real pipeline runs on the bundled chr9 data: the same alignments as one BAM, split over two "
-         "BAMs, accompanied by a BAM without a single record (first or last in the list), or split by the duplicate / QC-fail flag bits, the annotation gzipped or plain (thorough: also as the pre-built gffutils database and with inferred genes/transcripts) "
+         "BAMs, accompanied by a BAM without a single record (first or last in the list), or split by the duplicate / QC-fail flag bits (thorough: also a second run into the same output folder after the gzipped annotation was replaced by another release under the same name, against a fresh run), the annotation gzipped or plain (thorough: also as the pre-built gffutils database and with inferred genes/transcripts) "
          "must give identical read assignments, corrected alignments and ungrouped reference-based tables (as multisets of records)")
 def c12_repr(tier, rng):
-    which = ["split_bam", "empty_first_bam", "split_by_flag", "plain_gtf"] if tier == "quick" else ["split_bam", "empty_first_bam", "empty_last_bam", "split_by_flag", "plain_gtf", "inferred", "prebuilt_db"]
+    which = ["split_bam", "empty_first_bam", "split_by_flag", "plain_gtf"] if tier == "quick" else ["split_bam", "empty_first_bam", "empty_last_bam", "split_by_flag", "replaced_gz", "plain_gtf", "inferred", "prebuilt_db"]
     p = _representations(which)
     viol = []
     if p:
         viol.append({"obligation": "C12.representations", "inputs": {"which": which}, "observed": p[:4],
                      "required": "identical outputs", "replay_call": "contracts.c_inputs:replay_repr"})
-    return {"cases": len(which) + 1 + ("split_by_flag" in which), "bound": "bundled chr9 data; variants %s" % which, "violations": viol, "samples": [{"variants": which}]}
+    return {"cases": len(which) + 1 + ("split_by_flag" in which) + 2 * ("replaced_gz" in which), "bound": "bundled chr9 data; variants %s" % which, "violations": viol, "samples": [{"variants": which}]}
